@@ -299,7 +299,7 @@ PROPS = {
         assumptions=["input shorter than 2^63 bytes"]),
     "C05": dict(
         module="Flussab.Props.C05", modules=["Flussab.Props.C05Aiger", "Flussab.Props.C05", "Flussab.Props.C05Btor2", "Flussab.Props.TieCnfToken", "Flussab.Props.TieLineReader", "Flussab.Props.TieAigerToken", "Flussab.Props.TieBtor2Token"],
-        engines=[("aiger", 4000, 150000, "mutate+arbitrary+utf8+huge+corrupt"), ("cnf", 5000, 250000, "mutate+arbitrary+corrupt+logmut+layout"), ("btor2", 4000, 150000, "mutate+arbitrary+corrupt+kw"), ("btor2", 160, 640, "scale"), ("cnf", 270, 2600, "scale"), ("aiger", 40, 300, "scale"), ("cnf", 900, 2000, "dict"), ("btor2", 900, 2000, "dict"), ("aiger", 900, 2000, "dict")],
+        engines=[("aiger", 4000, 150000, "mutate+arbitrary+utf8+huge+corrupt"), ("cnf", 5000, 250000, "mutate+arbitrary+corrupt+logmut+layout"), ("btor2", 4000, 150000, "mutate+arbitrary+corrupt+kw+declared"), ("btor2", 160, 640, "scale"), ("cnf", 270, 2600, "scale"), ("aiger", 40, 300, "scale"), ("cnf", 900, 2000, "dict"), ("btor2", 900, 2000, "dict"), ("aiger", 900, 2000, "dict")],
         release=True,
         claim="Every Rust panic site is an explicit value in the models (advance / slice beyond scanned data, column "
               "underflow, from_utf8().unwrap(), line_at_offset overflow, NonZeroU64::new(0).unwrap(), loop fuel). "
